@@ -243,6 +243,14 @@ func c01Tree(cs int64, forceCustom int) (*Tree, bool) {
 			resDoc = "apiVersion: apps/v1\nkind: Deployment\nmetadata:\n  name: vm-web\nspec:\n" + podBase
 			patch = "apiVersion: apps/v1\nkind: Deployment\nmetadata:\n  name: vm-web\nspec:\n" + podPatch
 		}
+		if !custom {
+			// two strategic-merge patches that name the SAME resource under two spellings of its id (with and without
+			// `namespace: default`) and set the same field: they apply in the order they are listed, every time
+			psm, _ := top.Kust["patchesStrategicMerge"].([]interface{})
+			top.Kust["patchesStrategicMerge"] = append(psm, "vm-psm-a.yaml", "vm-psm-b.yaml")
+			top.Files["vm-psm-a.yaml"] = "apiVersion: apps/v1\nkind: Deployment\nmetadata:\n  name: vm-web\n  namespace: default\nspec:\n  replicas: 2\n"
+			top.Files["vm-psm-b.yaml"] = "apiVersion: apps/v1\nkind: Deployment\nmetadata:\n  name: vm-web\nspec:\n  replicas: 5\n"
+		}
 		ps, _ := top.Kust["patches"].([]interface{})
 		top.Kust["patches"] = append(ps, Obj{"path": "vm-patch.yaml"})
 		top.Files["vm-patch.yaml"] = patch
